@@ -12,6 +12,12 @@ Definition harness_tbase : Z := 8 * 1099511627776.
 
 Definition kenv (msize : Z) : env := mkEnv msize harness_tbase (table_words pow10DivTab64).
 
+(* what the assembly assumes about the read-only segment: it holds the table,
+   8-aligned, above the data memory and inside the 64-bit address space *)
+Definition tab_ok (E : env) : Prop :=
+  e_table E = table_words pow10DivTab64 /\ e_tbase E mod 8 = 0 /\
+  8 * e_msize E <= e_tbase E /\ e_tbase E + 8 * 54 <= W64.
+
 (* initial register contents of the executable harness: junk, so that a kernel
    depending on a register it did not set would be noticed *)
 Definition junk : Z := 12297829382473034410.   (* 0xAAAA...AA *)
